@@ -1036,7 +1036,11 @@ coap_oscore_decrypt_pdu(coap_session_t *session,
      * Requires in COSE object as appropriate
      *   partial_iv (as received)
      */
-    seq_validated = rcp_ctx->initial_state == 0;
+    /*
+     * The check is only postponed (until the Echo option has been verified
+     * after decryption) while the Appendix B.1.2 exchange is pending.
+     */
+    seq_validated = rcp_ctx->initial_state == 0 || !osc_ctx->rfc8613_b_1_2;
     if (seq_validated &&
         !oscore_validate_sender_seq(rcp_ctx, cose)) {
       coap_log_warn("OSCORE: Replayed or old message\n");
